@@ -31,6 +31,7 @@ type idesc struct {
 	Fin     bool   `json:"clean_close"`
 	Cuts    []int  `json:"cuts"`
 	Refuse  int    `json:"get_requests_answered_503_first"`
+	GoodRanges int `json:"range_requests_answered_before_403,omitempty"`
 	Got1    int    `json:"delivered_by_faulty_download"`
 	Err1    string `json:"error_of_faulty_download,omitempty"`
 	Adv1    int    `json:"advertised_bytes_after_faulty_download"`
@@ -84,26 +85,38 @@ func indexStage(dir string, seed uint64, tier string) error {
 		fin                 bool
 		cuts                []int
 		refuse              int // GET requests answered 503 first
+		goodRanges          int // > 0: Range requests beyond that many are answered 403
 	}
 	var plans []plan
 	// corners: a drop at every interesting offset while the body streams into the cache file (seeded change C20-6), and the same without a cache
 	for _, cached := range []bool{true, false} {
 		for _, cut := range []int{0, 1, 150, 299} {
-			plans = append(plans, plan{cached, 0, 300, frLength, false, []int{cut}, 0})
-			plans = append(plans, plan{cached, 0, 300, frLength, true, []int{cut}, 0})
-			plans = append(plans, plan{cached, 0, 300, frChunked, false, []int{cut}, 0})
+			plans = append(plans, plan{cached, 0, 300, frLength, false, []int{cut}, 0, 0})
+			plans = append(plans, plan{cached, 0, 300, frLength, true, []int{cut}, 0, 0})
+			plans = append(plans, plan{cached, 0, 300, frChunked, false, []int{cut}, 0, 0})
 		}
-		plans = append(plans, plan{cached, 0, 300, frChunked, true, []int{300}, 0}) // cut after the last byte, before the terminating chunk
-		plans = append(plans, plan{cached, 1, 4097, frLength, true, []int{2000, 3000}, 0})
-		plans = append(plans, plan{cached, 2, 4097, frLength, false, []int{2000}, 0})
-		plans = append(plans, plan{cached, 0, 4097, frLength, false, nil, 0})
+		plans = append(plans, plan{cached, 0, 300, frChunked, true, []int{300}, 0, 0}) // cut after the last byte, before the terminating chunk
+		plans = append(plans, plan{cached, 1, 4097, frLength, true, []int{2000, 3000}, 0, 0})
+		plans = append(plans, plan{cached, 2, 4097, frLength, false, []int{2000}, 0, 0})
+		plans = append(plans, plan{cached, 0, 4097, frLength, false, nil, 0, 0})
 		// close-delimited responses closed cleanly: finding C20-F1 (plain) and C20-F2 (the short body stays in the cache)
-		plans = append(plans, plan{cached, 0, 300, frClose, true, []int{150}, 0})
-		plans = append(plans, plan{cached, 1, 13, frClose, true, []int{0}, 0})
-		plans = append(plans, plan{cached, 0, 300, frClose, true, nil, 0}) // not cut: complete
+		plans = append(plans, plan{cached, 0, 300, frClose, true, []int{150}, 0, 0})
+		plans = append(plans, plan{cached, 1, 13, frClose, true, []int{0}, 0, 0})
+		plans = append(plans, plan{cached, 0, 300, frClose, true, nil, 0, 0}) // not cut: complete
 		// the GET is answered 503 (with a body, without one): the callers' status test / retrieveAndSaveFile's is what refuses it
-		plans = append(plans, plan{cached, 0, 300, frLength, false, nil, 1})
-		plans = append(plans, plan{cached, 1, 13, frLength, false, nil, 1})
+		plans = append(plans, plan{cached, 0, 300, frLength, false, nil, 1, 0})
+		plans = append(plans, plan{cached, 1, 13, frLength, false, nil, 1, 0})
+		// retry exhaustion for every framing that reports a cut as an error (seeded change C20-9 needs the chunked ones):
+		// more failing reads in a row than the budget, a resumption answered 400 (kind 2) / 416 (cut after the last byte),
+		// a resumption refused (403) after one / two good ones
+		for _, fr := range []int{frLength, frChunked} {
+			for _, fin := range []bool{false, true} {
+				plans = append(plans, plan{cached, 0, 300, fr, fin, []int{150, 0, 0, 0, 0}, 0, 0})
+				plans = append(plans, plan{cached, 2, 300, fr, fin, []int{150}, 0, 0})
+				plans = append(plans, plan{cached, 0, 300, fr, fin, []int{100, 50}, 0, 1})
+				plans = append(plans, plan{cached, 0, 300, fr, fin, []int{100, 50, 50}, 0, 2})
+			}
+		}
 	}
 	for i := 0; i < n; i++ {
 		dlen := gal.Pick(r, []int{1, 13, 300, 4097, 20000})
@@ -120,7 +133,7 @@ func indexStage(dir string, seed uint64, tier string) error {
 				cuts[j] = min(cuts[j], dlen)
 			}
 		}
-		plans = append(plans, plan{r.Chance(2, 3), r.Intn(3), dlen, fr, fin, cuts, 0})
+		plans = append(plans, plan{r.Chance(2, 3), r.Intn(3), dlen, fr, fin, cuts, 0, 0})
 	}
 	optBytes := func(present bool, b []byte, dseed, dlen int, data []byte) string {
 		if !present {
@@ -134,7 +147,7 @@ func indexStage(dir string, seed uint64, tier string) error {
 	for i, p := range plans {
 		dseed := r.Intn(1000)
 		data := genData(dseed, p.dlen)
-		srv := &cutServer{data: data, kind: p.kind, cuts: append([]int(nil), p.cuts...), framing: p.framing, fin: p.fin, bare: i%2 == 0, refuse: p.refuse}
+		srv := &cutServer{data: data, kind: p.kind, cuts: append([]int(nil), p.cuts...), framing: p.framing, fin: p.fin, bare: i%2 == 0, refuse: p.refuse, goodRanges: p.goodRanges}
 		cdir := ""
 		if p.cached {
 			srv.etag = fmt.Sprintf("\"rev-%d\"", i)
@@ -216,7 +229,7 @@ func indexStage(dir string, seed uint64, tier string) error {
 		if !isCut {
 			live = true // the first connection delivers everything
 		}
-		if p.refuse > 0 {
+		if p.refuse > 0 || (p.goodRanges > 0 && isCut) {
 			live = false
 		}
 		if unframed1 {
@@ -256,7 +269,7 @@ func indexStage(dir string, seed uint64, tier string) error {
 		}
 		w.Add(gal.Case{Term: term, Class: fmt.Sprintf("index-%s/%s/%s/%s", path, kindNames[p.kind], framingNames[p.framing], cutClass), Trivial: len(p.cuts) == 0 && p.refuse == 0,
 			Key:  fmt.Sprintf("%d", i),
-			Desc: idesc{path, kindNames[p.kind], p.dlen, framingNames[p.framing], p.fin, p.cuts, p.refuse, len(got[0]), es[0], advLen, tmps[0], len(got[1]), es[1], live, model}})
+			Desc: idesc{path, kindNames[p.kind], p.dlen, framingNames[p.framing], p.fin, p.cuts, p.refuse, p.goodRanges, len(got[0]), es[0], advLen, tmps[0], len(got[1]), es[1], live, model}})
 	}
 	return w.Flush()
 }
